@@ -18,6 +18,9 @@ connect_op.hpp, read_message_op.hpp:
             never to the construction of a receive/auth operation or a success completion
             and (framing) every re-read for the rest of a packet is dominated by
             header bytes + Remaining Length <= buffer capacity
+  R-TYPESTATE the type-erased authenticator is dereferenced only where an installed authenticator is
+            established (F11)
+  R-TABLE   the framer's reaction to each of the 256 first bytes == MQTT 5 §2.1.3 (folded from the CFG)
 Not decided: other hangs in the asynchronous framing loop, chunking independence, Boost/std internals.
 """
 from engine import Verdict
@@ -495,6 +498,7 @@ def run(fx, tier):
     handshake_span_rule(fx, v, 'C19')
     iterator_outlives_move_rule(fx, v, 'C19')
     authenticator_present_rule(fx, v, 'C19')
+    first_byte_table_rule(fx, v, 'C19')
     from c04 import reconnect_discards_buffer_rule
     v.rule('R-DOM', 'bytes buffered from a lost connection are discarded before the next read; exact-count reads of the handshake are not replaced by raw partial reads')
     reconnect_discards_buffer_rule(fx, v, 'C19')
@@ -860,3 +864,109 @@ def authenticator_present_rule(fx, v, prop='C19'):
             raise AnalysisBroken('any_authenticator: constructors not found (%d)' % n_ctor)
         if n_sites < 4:
             raise AnalysisBroken('any_authenticator::async_auth: call sites not found (%d)' % n_sites)
+
+
+# ---------------------------------------------------------------------------------------------- first byte of a packet (finite: 256 rows)
+
+# MQTT 5 §2.1.2/§2.1.3: packet types a Server sends, with the flag bits the fixed header must carry (None: any — PUBLISH)
+SERVER_SENT = {2: 0, 3: None, 4: 0, 5: 0, 6: 2, 7: 0, 9: 0, 11: 0, 13: 0, 14: 0, 15: 0}
+
+
+def _complete_class(x):
+    a = (x.get('args') or [None])[0]
+    a = unwrap(a)
+    if isinstance(a, dict) and a.get('k') == 'ctor' and a.get('cls') == 'error_code':
+        inner = [y for y in a.get('args', []) if y.get('k') != 'defarg']
+        if not inner:
+            return 'deliver'
+        e = enum_of(unwrap(inner[0]))
+        if e:
+            return e[1] if isinstance(e, tuple) else str(e)
+    return 'unknown'
+
+
+def first_byte_table_rule(fx, v, prop='C19'):
+    """"illegal headers" is a finite clause: the framer's reaction to each of the 256 possible first bytes is folded from the
+    extracted CFG of assemble_op::operator()(on_read) / dispatch / valid_header (no execution: the graph is walked with the byte
+    bound, branches that do not depend on it are explored both ways) and compared, row by row, with MQTT 5 §2.1.3:
+      * packet type 0 and a server-sent type with wrong reserved flag bits: every path ends in complete(malformed_packet);
+      * a server-sent type with the right flags is not rejected on account of its header;
+      * what is delivered upward has a `case` in read_message_op::dispatch (its default: is BOOST_ASSERT(false) — abort);
+      * an acknowledgement is routed to replies.dispatch under its own control code."""
+    from fold import fold, Unfoldable
+    v.rule('R-TABLE', 'framer reaction to each of the 256 first bytes == MQTT 5 §2.1.3 (reserved flags, type 0), and everything it delivers '
+           'has a case in read_message_op::dispatch')
+    n = 0
+    for tu in sorted({f.tu for f in fx.fns}):
+        ops = [f for f in fx.functions(cls='assemble_op', name='operator()', tag='on_read') if f.tu == tu]
+        dsp = [f for f in fx.functions(cls='assemble_op', name='dispatch') if f.tu == tu]
+        rdr = [f for f in fx.functions(cls='read_message_op', name='dispatch') if f.tu == tu]
+        if not ops or not dsp:
+            continue
+        f_op, f_d = ops[0], dsp[0]
+        v.saw(f_op); v.saw(f_d)
+        cases = set()
+        has_default_abort = False
+        for r in rdr[:1]:
+            v.saw(r)
+            for b, blk in r.blocks.items():
+                lab = blk.label or {}
+                if 'case' in lab:
+                    cases.add(lab['case'])
+        n += 1
+        bad = []
+        rows = 0
+        try:
+            for cb in range(256):
+                typ, flags = cb >> 4, cb & 0x0F
+                reach = False
+                for pth in fold(fx, f_op, {'control_byte': cb}, effects=('dispatch',)):
+                    if any(c == 'assemble_op' for nme, c, x, l in pth['effects']):
+                        reach = True
+                outcomes = set()
+                if reach:
+                    for pth in fold(fx, f_d, {'control_byte': cb}, effects=('complete', 'perform', 'dispatch')):
+                        if pth.get('noret'):
+                            outcomes.add('abort')
+                            continue
+                        kinds = []
+                        for nme, c, x, l in pth['effects']:
+                            if nme == 'complete':
+                                kinds.append(_complete_class(x))
+                            elif nme == 'dispatch' and c == 'replies':
+                                code_arg = (x.get('args') or [None, None])[1]
+                                try:
+                                    from arith import ieval
+                                    val = ieval(origin(f_d, code_arg), {'control_byte': cb})
+                                except Exception:
+                                    val = None
+                                kinds.append('reply:%s' % (val if val is not None else '?'))
+                            elif nme == 'perform':
+                                kinds.append('read-on')
+                        outcomes.add('+'.join(kinds) if kinds else 'nothing')
+                else:
+                    outcomes.add('malformed_packet')
+                rows += 1
+                legal = typ in SERVER_SENT and (SERVER_SENT[typ] is None or SERVER_SENT[typ] == flags)
+                illegal = typ == 0 or (typ in SERVER_SENT and not legal)
+                if 'abort' in outcomes or 'unknown' in outcomes or 'nothing' in outcomes:
+                    bad.append('0x%02x: %s' % (cb, sorted(outcomes)))
+                elif illegal and outcomes != {'malformed_packet'}:
+                    bad.append('0x%02x (illegal header) is not rejected on every path: %s' % (cb, sorted(outcomes)))
+                elif legal and outcomes <= {'malformed_packet'}:
+                    bad.append('0x%02x (legal header) is rejected on account of its first byte' % cb)
+                else:
+                    for o in outcomes:
+                        if o == 'deliver' and rdr and (cb & 0xF0) not in cases:
+                            bad.append('0x%02x is delivered to read_message_op::dispatch, which has no case for control code 0x%02x '
+                                       '(default: BOOST_ASSERT(false))' % (cb, cb & 0xF0))
+                        if o.startswith('reply:') and o.split('+')[0] != 'reply:%d' % (cb & 0xF0):
+                            bad.append('0x%02x is routed to replies.dispatch as %s' % (cb, o))
+        except Unfoldable as ex:
+            raise AnalysisBroken('assemble_op first-byte table: %s' % ex)
+        v.check(not bad and rows == 256, 'R-TABLE', 'assemble_op first-byte table [%s] (256 rows, cases %s)' % (tu, sorted(cases)),
+                'each first byte: illegal ⇒ malformed_packet on every path; legal ⇒ not rejected for its header; delivered ⇒ has a case; '
+                'acknowledgement ⇒ routed under its own code' if not bad else '; '.join(bad[:4]) + (' … (%d rows)' % len(bad) if len(bad) > 4 else ''),
+                key=prop + ':R-TABLE:assemble_op:first-byte', where=f_d.file)
+    if n == 0 and not v.violations:
+        raise AnalysisBroken('assemble_op::operator()(on_read)/dispatch not found')
